@@ -30,6 +30,20 @@ BinOp(op, a, b) ==
     [] op = "set0"   -> Bits(SetOf(a) \ SetOf(b))
     [] op = "contains" -> IF SetOf(b) \subseteq SetOf(a) THEN 1 ELSE 0
 
+\* colour constructors: c.on(b) is the style with exactly these two colours, c.on_default() with exactly the foreground
+OnStyle(fg, bg) == [fg |-> fg, bg |-> bg, ul |-> None, eff |-> {}]
+IsPlainStyle(g) == g.fg = None /\ g.bg = None /\ g.ul = None /\ g.eff = {}
+\* conversions between the colour types keep the value (From impls): which -> expected, given the raw numbers n
+ConvOf(which, n) ==
+  CASE which = "ansi->color"  -> <<"ansi", n[1]>>
+    [] which = "idx->color"   -> <<"idx", n[1]>>
+    [] which = "u8->color"    -> <<"idx", n[1]>>
+    [] which = "rgb->color"   -> <<"rgb", n[1], n[2], n[3]>>
+    [] which = "tuple->color" -> <<"rgb", n[1], n[2], n[3]>>
+    [] which = "ansi->idx"    -> <<"idx", n[1]>>
+    [] which = "u8->idx"      -> <<"idx", n[1]>>
+    [] which = "tuple->rgb"   -> <<"rgb", n[1], n[2], n[3]>>
+
 \* AnsiColor index arithmetic
 Hue(k) == k % 8
 Bright(k, yes) == Hue(k) + (IF yes THEN 8 ELSE 0)
